@@ -116,6 +116,8 @@ pub fn finish(
     let mut distinct: HashSet<u64> = HashSet::new();
     let mut disagreements = vec![];
     let mut oracle_failures = vec![];
+    // at most a few examples per failure key, so that one frequent (possibly known) failure cannot crowd out others
+    let mut per_key: BTreeMap<String, u32> = BTreeMap::new();
     let mut n_dis = 0u64;
     let mut n_or = 0u64;
     let mut bad_ops = 0u64;
@@ -135,7 +137,9 @@ pub fn finish(
         }
         if let Some(o) = &c.oracle {
             n_or += 1;
-            if oracle_failures.len() < 50 {
+            let k = per_key.entry(o.key.clone()).or_insert(0);
+            *k += 1;
+            if *k <= 4 && oracle_failures.len() < 400 {
                 oracle_failures.push(json!({"key": o.key, "what": short(&o.what), "op": short(&c.op), "input": short(&c.note), "real": short(&c.real), "class": c.class}));
             }
         }
